@@ -481,7 +481,7 @@ def grid_nodes(ctx, phiInt=2, thetaInt=3, sym=True):
 
 
 def grid_octant(ctx, n=12):
-    """PENDING (violated on the unchanged tree): with the default assumeSymmetric=True the grid option integrates one octant
+    """KNOWN FINDING: with the default assumeSymmetric=True the grid option integrates one octant
     and multiplies by 8; the components of D that are odd in a direction cosine do not vanish over one octant"""
     import math
     G, nu, eps = 57.1e9, 0.33, 0.01
@@ -504,19 +504,20 @@ def grid_octant(ctx, n=12):
     ctx.prove("(solver witness)", ctx.eq(s + s, 2 * s))
 
 
-def applied_stress_order(ctx):
-    """PENDING (violated on the unchanged tree): update() rotates the STORED applied stress again on every call, so the stored
-    applied stress depends on the order and number of setter calls"""
+def applied_stress_order(ctx, orders="few"):
+    """the stored applied stress is the rotation of the stress the user supplied, whatever the order and number of setter
+    calls (update() used to rotate the STORED value again on every call)"""
     a = ctx.real("ra", (-1.0, 1.0)); b = ctx.real("rb", (-1.0, 1.0))
     zero, one = 0.0 * a, 1.0 + 0.0 * a
     Rm = [[a, -b, zero], [b, a, zero], [zero, zero, one]]
     sg = ctx.reals("sig", 6, (0.5, 2.0))
-    ctx.assume(sg[0] > 0); ctx.assume(a > 0); ctx.assume(b > 0)
+    ctx.assume(sg[0] > 0); ctx.assume(sg[2] > 0); ctx.assume(a > 0); ctx.assume(b > 0)
     sig = [[sg[0], sg[5], sg[4]], [sg[5], sg[1], sg[3]], [sg[4], sg[3], sg[2]]]
     c11 = ctx.real("c11", (2.0, 3.0)); c12 = ctx.real("c12", (0.5, 1.5)); c44 = ctx.real("c44", (0.5, 1.5))
     ctx.assume(c12 > 0); ctx.assume(c44 > 0); ctx.assume(c11 > c12)
     objs = []
-    for perm in (("R", "A", "M", "P"), ("R", "A", "P", "M"), ("A", "M", "R", "P"), ("M", "R", "A", "P"), ("A", "R", "M", "P"), ("M", "A", "R", "P")):
+    few = (("R", "A", "M", "P"), ("R", "A", "P", "M"), ("A", "M", "R", "P"), ("M", "R", "A", "P"), ("A", "R", "M", "P"), ("M", "A", "R", "P"))
+    for perm in (few if orders == "few" else list(itertools.permutations(("R", "A", "M", "P")))):
         se = StrainEnergy()
         for op in perm:
             if op == "A": se.setAppliedStress(sig)
@@ -526,6 +527,9 @@ def applied_stress_order(ctx):
         objs.append((",".join(perm), se))
     ref = np.array(objs[0][1].params.appliedStress)
     ctx.observe("stress", ref)
+    # textbook rotation of a 2nd-rank tensor: sigma'_ij = R_ik R_jl sigma_kl
+    ctx.prove("stored applied stress is R sigma R^T of the supplied stress",
+              ctx.all([ctx.eq(ref[i, j], sum(Rm[i][k] * Rm[j][l] * sig[k][l] for k in R3 for l in R3), atol=1e-12) for i in R3 for j in R3]))
     for name, se in objs[1:]:
         x = np.array(se.params.appliedStress)
         ctx.prove("every order: same stored applied stress", ctx.all([ctx.eq(x[i, j], ref[i, j], atol=1e-12) for i in R3 for j in R3]), note=name)
@@ -1070,6 +1074,13 @@ HARNESSES = [
             params={"quick": [{"phiInt": 2, "thetaInt": 3, "sym": True}, {"phiInt": 5, "thetaInt": 2, "sym": True}, {"phiInt": 3, "thetaInt": 3, "sym": False}, {"phiInt": 4, "thetaInt": 3, "sym": False},
                               {"phiInt": 6, "thetaInt": 3, "sym": False}],
                     "thorough": [{"phiInt": p_, "thetaInt": t_, "sym": s_} for p_ in (1, 2, 3, 7) for t_ in (1, 2, 4, 5) for s_ in (True, False)]}),
+    Harness("C16.grid_octant", grid_octant, functions=[_E.setIntegrationIntervals, _E.sphInt, _E.Dijkl, _E.Sijmn, _E.strainEnergyBohm],
+            assumptions=["isotropic matrix G = 57.1 GPa, nu = 0.33, sphere of 4 nm, precipitate twice as stiff; 12 x 12 octant grid vs 48 x 24 full-sphere grid (concrete numbers)"],
+            params={"quick": [{"n": 12}], "thorough": [{"n": 12}]}),
+    Harness("C16.applied_stress_order", applied_stress_order, functions=_F_SE + [_SE.setAppliedStress, _SE._computeAppliedStrain], opts={"name_threshold": 10 ** 6, "inv_hook": _cut_inv}, validate=1,
+            bounds={"orders": "quick 6 orders, thorough all 24 orders of (applied stress, matrix rotation, matrix stiffness, precipitate stiffness), one to three update() calls"},
+            assumptions=["symmetric applied stress (sig_11 > 0), rotation about z with arbitrary entries, cubic stiffness"], stubs=["np.linalg.inv in _computeAppliedStrain: cut (applied strain not examined)"],
+            params={"quick": [{"orders": "few"}], "thorough": [{"orders": "all"}]}),
     Harness("C16.setter_order", setter_order, functions=_F_SE + [elasticConstantToC], opts={"ob_timeout": 30.0, "name_threshold": 10 ** 6},
             assumptions=["R arbitrary real 3x3 (orthogonality not needed for this clause); cubic stiffness c11, c44 > 0"],
             params={"quick": [{"target": "matrix"}, {"target": "prec"}, {"target": "matrix", "shape": "ellipsoid"}],
@@ -1117,18 +1128,14 @@ HARNESSES = [
 
 # harnesses that are violated on the unchanged tree wait here (not part of ./vcheck) until the code is repaired or the finding is listed;
 # run them with  VK_PENDING=1 ./vcheck C16 --only <id>
+# C16.moduli_from_solid_EM stays here for the record: it is NOT a violation of the property as stated (the pair-quantified
+# direction moduli -> stiffness -> moduli holds exactly, see C16.moduli); only the solid-quantified direction is ambiguous for (E, M).
 PENDING = [
     Harness("C16.moduli_from_solid_EM", lambda ctx, nu_sign="negative": moduli_from_solid(ctx, ("E", "M"), nu_sign), functions=[moduliToC],
             opts={"inv_hook": _capturing_inv, "ob_timeout": 30.0},
             assumptions=["solid with E > 0 and -1 < nu < 0; its (E, M) pair handed to moduliToC"],
             doc="an auxetic solid (nu < 0) is not recovered from its (E, M) pair: moduliToC always takes the nu > 0 root of the quadratic",
             params={"quick": [{"nu_sign": "negative"}], "thorough": [{"nu_sign": "negative"}]}),
-    Harness("C16.grid_octant", grid_octant, functions=[_E.setIntegrationIntervals, _E.sphInt, _E.Dijkl, _E.Sijmn, _E.strainEnergyBohm],
-            assumptions=["isotropic matrix G = 57.1 GPa, nu = 0.33, sphere of 4 nm, precipitate twice as stiff; 12 x 12 octant grid vs 48 x 24 full-sphere grid (concrete numbers)"],
-            params={"quick": [{"n": 12}], "thorough": [{"n": 12}]}),
-    Harness("C16.applied_stress_order", applied_stress_order, functions=_F_SE + [_SE.setAppliedStress, _SE._computeAppliedStrain], opts={"name_threshold": 10 ** 6, "inv_hook": _cut_inv}, validate=1,
-            assumptions=["symmetric applied stress (sig_11 > 0), rotation about z with arbitrary entries, cubic stiffness"], stubs=["np.linalg.inv in _computeAppliedStrain: cut (applied strain not examined)"],
-            params={"quick": [{}], "thorough": [{}]}),
 ]
 import os as _os
 if _os.environ.get("VK_PENDING"):
